@@ -71,6 +71,7 @@ def cases(tier, seed):
             if j % 3 == 1 and d >= 2:
                 for rm in (1, 2, 3):
                     cs.append({'scen': 'ttsvd', 's': dict(base, rmax=rm)})
+                cs.append({'scen': 'ttsvd', 's': dict(base, rmax=1, entry='numpy')})       # every entry point honours rmax
             if j % 3 == 2 and d >= 2:
                 cs.append({'scen': 'ttsvd', 's': dict(base, rmax=[1] + [1 + (k % 2) for k in range(d - 1)] + [1])})
                 cs.append({'scen': 'ttsvd', 's': dict(base, rmax=[1] + [50] * (d - 1) + [1])})
@@ -90,8 +91,11 @@ def cases(tier, seed):
     # constructor with an explicit shape argument (reshape first), incl. order-1 target and singleton modes
     for shp, N in [([4], [2, 2]), ([2, 4], [2, 2, 2]), ([8], [2, 2, 2]), ([2, 3], [6]), ([2, 2], [1, 2, 2]), ([6], [2, 3]), ([4], [2, 1, 2])]:
         pats = gen_patterns(shp, 3, rng, 3 if not th else 8, modes=N, reindex=lambda p, shp=shp, N=N: pattern_in(shp, p, N))
-        for pat in pats:
+        for j, pat in enumerate(pats):
             cs.append({'scen': 'ttsvd', 's': {'shape': shp, 'N': N, 'pattern': [list(p) for p in pat]}})
+            if j == 0 and len(N) >= 2:
+                cs.append({'scen': 'ttsvd', 's': {'shape': shp, 'N': N, 'pattern': [list(p) for p in pat], 'rmax': 1, 'entry': 'numpy'}})
+                cs.append({'scen': 'ttsvd', 's': {'shape': shp, 'N': N, 'pattern': [list(p) for p in pat], 'rmax': 1}})
     # operators: TT(A, [(m,n),...])
     for M, N in [([2], [3]), ([2, 2], [2, 2]), ([2, 1], [1, 2]), ([1, 2], [2, 1]), ([2, 2], [1, 3])] + ([([2, 2, 2], [2, 1, 2]), ([3, 2], [2, 2])] if th else []):
         d = len(N)
@@ -109,6 +113,7 @@ def cases(tier, seed):
             if j % 2 == 1 and d >= 2:
                 for rm in (1, 2):
                     cs.append({'scen': 'ttsvd', 's': dict(base, rmax=rm)})
+                cs.append({'scen': 'ttsvd', 's': dict(base, rmax=1, entry='numpy')})
     # complex128 copies of a sample (symbolic positive moduli with fixed rational unit phases; arbitrary complex entries for the one-row/one-column shapes)
     from .C03 import _pick
     pool = [c for c in cs if c['scen'] == 'ttsvd' and 'dtype' not in c['s']]
